@@ -104,7 +104,8 @@ MonNext ==
                /\ sum' = [sum EXCEPT ![p] =
                     [@ EXCEPT !.crs = IF e.kind = "store" /\ e.verb = "create" /\ e.ok THEN @ \cup {e.rev} ELSE @,
                               !.flt = IF e.inj THEN @ \cup {FaultClass(e)} ELSE @,
-                              !.posted = IF e.kind = "res" /\ e.verb = "POST" /\ e.ok /\ e.id \in ManIdsOf(sum[p].u)
+                              \* (what the operation itself created; not what its atomic sub-operation re-creates)
+                              !.posted = IF e.kind = "res" /\ e.verb = "POST" /\ e.ok /\ e.id \in ManIdsOf(sum[p].u) /\ ~sum[p].sub
                                          THEN @ \cup {e.id} ELSE @,
                               !.sub = @ \/ (e.kind = "store" /\ e.verb = "query" /\ e.id = "history" /\ sum[p].crs # {}),
                               !.fsub = @ \/ (e.inj /\ e.kind # "store" /\ sum[p].sub),
